@@ -34,7 +34,7 @@ TARGETS = ['int', 'hasconv', 'plain', 'sublist']
 SHAPES = ['direct', 'list', 'optional', 'dict_value', 'tuple_var', 'union', 'struct', 'nested_dc', 'inherited', 'inherited_own',
           'list_any', 'dict_any', 'tuple_any']
 FORMS = ['callable', 'sequence', 'mapping']
-INNER_MODES = [None, 'own', 'inherited']
+INNER_MODES = [None, 'own', 'inherited', 'unrelated']      # 'unrelated': the class has custom= handlers, but none for the target type
 
 
 def plan(tier, seed):
@@ -107,7 +107,7 @@ class World:
         if m is not None:
             return m
         world = self
-        target = next(k for k, v in self.types.items() if v is T)
+        target = next((k for k, v in self.types.items() if v is T), 'int')
 
         class Mark(self.Converter):
             def expected(self, plural=False):
@@ -203,7 +203,10 @@ def run_cell(pane, world, res, target, shape, form, mask, inner_mode, only_dir=N
     from pane.convert import make_converter
     from pane.classes import _make_subclass
     X = world.types[target]
-    srcs = {'F': bool(mask & 1), 'C': bool(mask & 2), 'I': inner_mode is not None, 'O': bool(mask & 4), 'G': bool(mask & 8)}
+    srcs = {'F': bool(mask & 1), 'C': bool(mask & 2), 'I': inner_mode in ('own', 'inherited'), 'O': bool(mask & 4), 'G': bool(mask & 8)}
+    call_unrelated = bool(mask & 16)
+    if call_unrelated and srcs['C']:
+        return
     if srcs['F'] and shape not in ('direct',):
         return
     any_shape = shape.endswith('_any')
@@ -221,6 +224,9 @@ def run_cell(pane, world, res, target, shape, form, mask, inner_mode, only_dir=N
             inner_kw['custom'] = world.handler(X, P_INNER, form)
         elif inner_mode == 'inherited':
             base_kw['custom'] = world.handler(X, P_INNER, form)
+        elif inner_mode == 'unrelated':
+            # handlers that answer NotImplemented for X (they only know `bytes`): must defer to the dataclasses further out
+            inner_kw['custom'] = world.handler(bytes, P_INNER, form)
         Base = type('Base', (pane.PaneBase,), {'__annotations__': {}, '__module__': 'mc.generated'}, **base_kw)
         if shape in ('nested_dc', 'inherited', 'inherited_own'):
             ftype, wrap, unwrap = X, (lambda d: d), (lambda r: r)
@@ -239,16 +245,16 @@ def run_cell(pane, world, res, target, shape, form, mask, inner_mode, only_dir=N
         elif shape in ('inherited', 'inherited_own'):
             # the field is declared on a parent; the converting class is a subclass (with / without its own custom=)
             Parent = type('Parent', (Base,), dict(ns), **inner_kw)
-            sub_kw = {'custom': world.handler(X, P_INNER, form)} if (shape == 'inherited_own' and inner_mode is not None) else {}
+            sub_kw = {'custom': world.handler(X, P_INNER, form)} if (shape == 'inherited_own' and inner_mode in ('own', 'inherited')) else {}
             Inner = type('Inner', (Parent,), {'__annotations__': {}, '__module__': 'mc.generated'}, **sub_kw)
         else:
             Inner = type('Inner', (Base,), dict(ns), **inner_kw)
         outer_kw = {'custom': world.handler(X, P_OUTER, form)} if srcs['O'] else {}
         Outer = type('Outer', (pane.PaneBase,), {'__annotations__': {'inner': Inner}, '__module__': 'mc.generated'}, **outer_kw)
-        call_custom = world.handler(X, P_CALL, form) if srcs['C'] else None
+        call_custom = world.handler(X, P_CALL, form) if srcs['C'] else (world.handler(bytes, P_CALL, form) if call_unrelated else None)
         want = expected_prime(target, srcs, shape)
         cell = {'t': target, 's': shape, 'form': form, 'mask': mask, 'inner': inner_mode}
-        srcnames = '+'.join(k for k, v in srcs.items() if v) or 'none'
+        srcnames = ('+'.join(k for k, v in srcs.items() if v) or 'none') + ('+call_unrelated' if call_unrelated else '')
         desc = f"target={target} shape={shape} form={form} sources={srcnames}{'(inner ' + inner_mode + ')' if inner_mode else ''}"
         sig = {'target': target, 'shape': shape, 'form': form}
         nontriv = sum(srcs.values()) >= 2 or shape != 'direct'
@@ -382,7 +388,7 @@ def run_shard(shard, tier):
         return res
     target, shape = TARGETS[shard['t']], SHAPES[shard['s']]
     for form in FORMS:
-        for mask in range(16):
+        for mask in range(32):
             for inner_mode in INNER_MODES:
                 try:
                     run_cell(pane, world, res, target, shape, form, mask, inner_mode)
